@@ -120,6 +120,7 @@ var (
 	allTerms  = []scn.Term{scn.TStop, scn.TReturn, scn.TRevert, scn.TInvalid, scn.TUnderflow, scn.TOOG, scn.TSelfdestruct}
 	fewTerms  = []scn.Term{scn.TStop, scn.TReturn, scn.TRevert, scn.TInvalid}
 	allTgts   = []scn.Target{scn.TgChild, scn.TgPrecompile, scn.TgCodeless}
+	initTerms = []scn.Term{scn.TStop, scn.TReturn, scn.TRevert, scn.TInvalid, scn.TUnderflow, scn.TOOG, scn.TSelfdestruct, scn.TReturnEF, scn.TReturnBig}
 	threeFork = []world.Fork{world.Byzantium, world.Berlin, world.Shanghai}
 )
 
@@ -199,7 +200,7 @@ func init() {
 	c08 := &scnCheck{ID: "C08", Judge: c08Judge, Nontrivial: anyNested,
 		Opts: func(tier string) (*scnOpts, int, [][]bool) {
 			o := &scnOpts{Forks: threeFork, Answers: failAlphabet, BoundAll: true, TopValues: []int{0, 1}, JPModes: []bool{true, false}}
-			o.Gen = scn.GenOpts{MaxDepth: 2, Effects: []scn.Effect{scn.ENone, scn.ESstore}, PreEffects: []scn.Effect{scn.ENone}, Terms: allTerms, Kinds: allKinds, Values: []int{0, 1, 2}, Targets: allTgts,
+			o.Gen = scn.GenOpts{MaxDepth: 2, Effects: []scn.Effect{scn.ENone, scn.ESstore}, PreEffects: []scn.Effect{scn.ENone}, Terms: allTerms, InitTerms: initTerms, Kinds: allKinds, Values: []int{0, 1, 2}, Targets: allTgts,
 				Reuse: []int{0, 1, 2}}
 			bound := 1
 			if tier == "thorough" {
